@@ -129,6 +129,13 @@ func c03Step(id string, op Op, ps []Pos, o Opts, pending bool) {
 // re-established by every successful operation from any RI state (RI has the sums by construction).
 func H_C03_step_delegate()   { c03Step("C03.step.delegate", OpDelegate, shape3("shape"), Opts{}, false) }
 func H_C03_step_undelegate() { c03Step("C03.step.undelegate", OpUndelegate, shapeActor("shape"), Opts{}, false) }
+
+// H_C03_step_exit_dustval: the last staker leaves (staked total returns to zero) while another
+// validator still holds a dust remainder of validator shares and no delegation: the reset must
+// clear every validator's record of the asset.
+func H_C03_step_exit_dustval() {
+	c03Step("C03.step.exit_dustval", OpUndelegate, []Pos{{0, 0, 0}}, Opts{DustVal: true}, false)
+}
 func H_C03_step_redelegate() { c03Step("C03.step.redelegate", OpRedelegate, shapeActor("shape"), Opts{}, false) }
 func H_C03_step_claim()      { c03Step("C03.step.claim", OpClaim, shapeActor("shape"), Opts{Rewards: true}, false) }
 func H_C03_step_slash()      { c03Step("C03.step.slash", OpSlash, shapeActor("shape"), Opts{}, true) }
